@@ -211,6 +211,8 @@ pub struct Req {
     pub kind: ReqKind,
     pub lane: String,
     pub body: Bytes,
+    /// Virtual time at which the write started.
+    pub at: tokio::time::Instant,
 }
 
 #[derive(Default)]
@@ -247,7 +249,7 @@ pub async fn writer_task(id: Uuid, node: String, writer: ByteWriter, mut rx: mps
                 };
                 let idx = {
                     let mut g = log.lock();
-                    g.reqs.push(Req { t0: ticket(), t1: None, kind, lane: lane.clone(), body: body.clone() });
+                    g.reqs.push(Req { t0: ticket(), t1: None, kind, lane: lane.clone(), body: body.clone(), at: tokio::time::Instant::now() });
                     g.reqs.len() - 1
                 };
                 let r = framed.send(msg).await;
